@@ -56,6 +56,9 @@ type aState struct {
 	Held   int            `json:"held"`
 	Pay    int            `json:"pay"`
 	Spends []int          `json:"spends"`
+	KBal   int            `json:"kbal"`  // units at cKill's address
+	KCode  bool           `json:"kcode"` // cKill still has its code
+	Burnt  int            `json:"burnt"` // units destroyed outside the designed exceptions (as coded)
 }
 
 func (t aTx) fromAcct() string { var s string; json.Unmarshal(t.F, &s); return s }
@@ -74,6 +77,7 @@ var (
 	addrPay    = common.HexToAddress("0x00000000000000000000000000000000000c5705")
 	addrStore  = common.HexToAddress("0x00000000000000000000000000000000000c5701")
 	addrRevert = common.HexToAddress("0x00000000000000000000000000000000000c5702")
+	addrKill   = common.HexToAddress("0x00000000000000000000000000000000000c5706")
 	codeStore  = []byte{0x00}                         // STOP: keeps what it receives
 	codeRevert = []byte{0x60, 0x00, 0x60, 0x00, 0xfd} // PUSH1 0 PUSH1 0 REVERT
 )
@@ -119,6 +123,13 @@ func codeFwd() []byte {
 	return c
 }
 
+// codeKill: without call data it accepts what it is sent; with call data it self-destructs in favour of p1.
+func codeKill() []byte {
+	c := []byte{0x36, 0x15, 0x60, 0x1b, 0x57, 0x73} // CALLDATASIZE ISZERO PUSH1 27 JUMPI PUSH20
+	c = append(c, addrP1.Bytes()...)
+	return append(c, 0xff, 0x5b, 0x00) // SELFDESTRUCT JUMPDEST(27) STOP
+}
+
 // world is the concrete instantiation shared by all replicas of one behaviour.
 type world struct {
 	accts      map[string]*appx.Account
@@ -131,6 +142,7 @@ type world struct {
 	lastRing   int
 	fwdCount   int
 	sstCount   int
+	kNoCode    bool // cKill was deleted at the end of an earlier block
 }
 
 type replica struct {
@@ -165,7 +177,8 @@ func (w *world) genesis() []appx.Alloc {
 	al = append(al, appx.Alloc{Addr: addrP1, Tokens: map[common.Address]*big.Int{addrToken: units(1)}}) // tokens only: no native coin, nonce 0
 	al = append(al, appx.Alloc{Addr: addrStore, Code: codeStore, Nonce: 1}, appx.Alloc{Addr: addrRevert, Code: codeRevert, Nonce: 1},
 		appx.Alloc{Addr: addrFwd, Code: codeFwd(), Nonce: 1}, appx.Alloc{Addr: addrSlots, Code: codeSlots, Nonce: 1},
-		appx.Alloc{Addr: addrPay, Code: codePay(), Nonce: 1, Balance: units(2)})
+		appx.Alloc{Addr: addrPay, Code: codePay(), Nonce: 1, Balance: units(2)},
+		appx.Alloc{Addr: addrKill, Code: codeKill(), Nonce: 1})
 	return al
 }
 
@@ -219,12 +232,30 @@ func (w *world) build(t aTx, ref *appx.Env, newCoins *[]*appx.Coin) (types.Tx, e
 	case "sst":
 		w.sstCount++
 		return w.accts[t.fromAcct()].TransferGasLimit(uint64(t.nonce()), addrSlots, big.NewInt(0), 2000000, slotsData(t.A, byte(w.sstCount))), nil
+	case "kill", "kfund":
+		// value moves twice in a kill (into the contract, on to the heir): ample gas for both transfer fees
+		fee := types.CalNewAmountGas(units(t.A), types.EverContractLiankeFee)
+		if w.kNoCode {
+			// the contract was deleted at the end of an earlier block: its address is an ordinary account now
+			return w.accts[t.fromAcct()].Transfer(uint64(t.nonce()), addrKill, units(t.A)), nil
+		}
+		var data []byte
+		if t.K == "kill" {
+			data = []byte{1}
+		}
+		return w.accts[t.fromAcct()].TransferGasLimit(uint64(t.nonce()), addrKill, units(t.A), 3*fee+60000000, data), nil
 	case "call":
 		to := addrStore
 		if t.T == "cRevert" {
 			to = addrRevert
 		}
 		gas := types.CalNewAmountGas(units(t.A), types.EverContractLiankeFee) + 200000
+		if t.T == "cStoreTight" {
+			// the window between the transfer fee and transfer fee + intrinsic gas (21000): admitted, fails
+			// before anything moves
+			w.fwdCount++
+			gas = types.CalNewAmountGas(units(t.A), types.EverContractLiankeFee) + []uint64{0, 1, 10000, 20999}[w.fwdCount%4]
+		}
 		return w.accts[t.fromAcct()].TransferGasLimit(uint64(t.nonce()), to, units(t.A), gas, nil), nil
 	case "wd", "cx":
 		id := t.fromCoin()
@@ -415,16 +446,21 @@ func replay(g *mbt.Graph, path []int, dir string, rng *rand.Rand, initBal int) (
 		// proposer path: fill the header by pre-running; a block that does not execute makes PreRunBlock panic
 		blk := P.env.MakeBlock(h, txs)
 		preOK := true
+		prePanic := ""
 		func() {
 			defer func() {
 				if r := recover(); r != nil {
 					preOK = false
+					prePanic = fmt.Sprint(r)
 				}
 			}()
 			P.env.App.PreRunBlock(blk)
 		}()
 		accepted := preOK
 		var verdicts []string
+		if !preOK {
+			verdicts = append(verdicts, "PreRunBlock: "+prePanic)
+		}
 		if preOK {
 			for _, r := range reps {
 				b2, _, err := appx.Redecode(blk)
@@ -502,6 +538,7 @@ func replay(g *mbt.Graph, path []int, dir string, rng *rand.Rand, initBal int) (
 			}
 		}
 		res.Accepted++
+		w.kNoCode = !to.KCode
 		w.coins = append(w.coins, newCoins...)
 		for _, t := range act.Blk {
 			if t.K == "wd" || t.K == "cx" {
@@ -521,6 +558,8 @@ func replay(g *mbt.Graph, path []int, dir string, rng *rand.Rand, initBal int) (
 		if m := w.compare(reps, to); m != "" {
 			cls := "ledger-mismatch"
 			switch {
+			case strings.HasPrefix(m, "conservation/destroyed/paid-after-selfdestruct"):
+				cls = "conservation/destroyed/paid-after-selfdestruct"
 			case strings.HasPrefix(m, "conservation"):
 				cls = "conservation"
 			case strings.HasPrefix(m, "token:"):
@@ -583,7 +622,7 @@ func (w *world) compare(reps []*replica, to aState) string {
 				return fmt.Sprintf("token: %s: token balance of %s is %v, the specification says %d units", r.name, n, got, want)
 			}
 		}
-		for _, a := range []common.Address{addrStore, addrRevert, addrFwd, addrPay, addrSlots, cfg.ContractFoundationAddr, common.EmptyAddress} {
+		for _, a := range []common.Address{addrStore, addrRevert, addrFwd, addrPay, addrSlots, addrKill, cfg.ContractFoundationAddr, common.EmptyAddress} {
 			tokTotal.Add(tokTotal, st.GetTokenBalance(a, addrToken))
 		}
 		if tokTotal.Cmp(units(len(to.Tok))) != 0 {
@@ -597,6 +636,14 @@ func (w *world) compare(reps []*replica, to aState) string {
 			return fmt.Sprintf("%s: the paying contract holds %v, the specification says %d units", r.name, payHeld, to.Pay)
 		}
 		total.Add(total, payHeld)
+		kHeld := st.GetBalance(addrKill)
+		if kHeld.Cmp(units(to.KBal)) != 0 {
+			return fmt.Sprintf("%s: the self-destructing contract's address holds %v, the specification says %d units", r.name, kHeld, to.KBal)
+		}
+		if hasCode := len(st.GetCode(addrKill)) > 0; hasCode != to.KCode {
+			return fmt.Sprintf("%s: the self-destructing contract has code = %v, the specification says %v", r.name, hasCode, to.KCode)
+		}
+		total.Add(total, kHeld)
 		held := st.GetBalance(addrStore)
 		if held.Cmp(units(to.Held)) != 0 {
 			return fmt.Sprintf("%s: the keeping contract holds %v, the specification says %d units", r.name, held, to.Held)
@@ -627,6 +674,12 @@ func (w *world) compare(reps []*replica, to aState) string {
 			}
 		}
 		total.Add(total, pool)
+		if to.Burnt > 0 && new(big.Int).Add(total, units(to.Burnt)).Cmp(supply) == 0 {
+			// exactly what the as-coded model says disappears: value sent to a contract after it self-destructed in the
+			// same block is deleted with it at the end of the block - not one of the two designed exceptions
+			return fmt.Sprintf("conservation/destroyed/paid-after-selfdestruct: %s: %d unit(s) sent to a contract after it self-destructed earlier in the same block have disappeared with it: accounts + contracts + fee collector + unspent confidential outputs = %v, the supply was %v",
+				r.name, to.Burnt, total, supply)
+		}
 		if total.Cmp(supply) != 0 {
 			return fmt.Sprintf("conservation: %s: accounts + contracts + fee collector + unspent confidential outputs = %v, the supply is %v (difference %v)",
 				r.name, total, supply, new(big.Int).Sub(total, supply))
@@ -763,6 +816,57 @@ func Run(c *core.Ctx, focus string) {
 			}
 		}
 	}
+	if focus == "C06" {
+		// a second family: blocks of up to three transactions over the self-destructing contract (linkchain
+		// finalises once per block: self-destruct, re-funding and repeated self-destruct inside one block)
+		kcfg := "LedgerKill.cfg"
+		if c.Thorough() {
+			kcfg = "LedgerKillBig.cfg"
+		}
+		kx := c.TLC(tlc.Options{SpecDir: c.SpecDir("Ledger"), Module: "Ledger", Config: kcfg, Workers: 1, Timeout: c.MinutesT(5, 20)})
+		if kx == nil {
+			return
+		}
+		if kx.Violated != "" || !kx.Finished {
+			c.Infra("Ledger kill family: %s\n%s", kx.Describe(), kx.Tail)
+			return
+		}
+		lead := c.TLC(tlc.Options{SpecDir: c.SpecDir("Ledger"), Module: "Ledger", Config: "LedgerKill_NoBurn.cfg", Workers: 1, Timeout: c.MinutesT(3, 10)})
+		if lead != nil {
+			c.SetExtra("as_coded_model_violates_NoUndesignedBurn", lead.Violated != "")
+		}
+		kfile := filepath.Join(base, "kill-edges.ndjson")
+		os.WriteFile(kfile, []byte(strings.Join(kx.Lines, "\n")), 0644)
+		arg, _ := json.Marshal(map[string]interface{}{"edges": kfile, "dir": filepath.Join(base, "pk"), "procs": 8,
+			"walks": c.Pick(20, 300), "maxTours": c.Pick(120, 3000), "focus": focus, "initBal": 2, "budgetSec": c.Pick(60, 300), "tourLen": 6})
+		results, at, crash := c.RunChild(string(arg), c.MinutesT(4, 15))
+		if crash != "" {
+			if crash == "TIMEOUT" {
+				c.Infra("kill-family replay timed out at %s", at)
+			} else if strings.Contains(crash, "/repo/") {
+				c.Violate("crash", "block execution killed the process while replaying "+at, map[string]interface{}{"at": at, "crash": crash})
+			} else {
+				c.Infra("kill-family replay process died: %s", crash)
+			}
+			return
+		}
+		for _, r := range results {
+			var co childOut
+			if json.Unmarshal([]byte(r), &co) == nil {
+				c.SetExtra("kill_family", map[string]int{"model_edges": len(kx.Lines), "behaviours_planned": co.Planned, "behaviours_replayed": co.Results, "blocks": co.Blocks, "not_replayed_time_budget": co.Cut})
+				o.Traces += co.Results
+				o.Evaluations += co.Blocks
+				o.Distinct += co.Nontriv
+				for _, v := range co.Viol {
+					if relevant(focus, v.Key) {
+						c.Violate(v.Key, v.Desc, v.Record)
+					} else {
+						c.Drift("outside this property (%s): %s", v.Key, v.Desc)
+					}
+				}
+			}
+		}
+	}
 	if focus == "C07" {
 		restartScenario(c, base)
 	}
@@ -802,6 +906,7 @@ func child(c *core.Ctx) {
 		InitBal  int    `json:"initBal"`
 		MaxTours int    `json:"maxTours"`
 		Budget   int    `json:"budgetSec"`
+		TourLen  int    `json:"tourLen"`
 	}
 	if json.Unmarshal([]byte(c.Child), &j) != nil {
 		os.Exit(3)
@@ -816,7 +921,10 @@ func child(c *core.Ctx) {
 		os.Exit(3)
 	}
 	rng := rand.New(rand.NewSource(c.Seed))
-	paths := g.Tour(12, rng)
+	if j.TourLen == 0 {
+		j.TourLen = 12
+	}
+	paths := g.Tour(j.TourLen, rng)
 	if j.MaxTours > 0 && len(paths) > j.MaxTours { // quick tier: a seeded sample of the tour
 		rng.Shuffle(len(paths), func(a, b int) { paths[a], paths[b] = paths[b], paths[a] })
 		paths = paths[:j.MaxTours]
